@@ -255,6 +255,7 @@ pub enum Style {
 }
 
 struct Cx<'a> {
+    types: &'a FieldTypes,
     t: &'a [Tk],
     arr: &'static str,
     style: Style,
@@ -349,6 +350,17 @@ impl<'a> Cx<'a> {
                     else if let Some((_, c)) = full("( $A . len ( ) - $n ) % 2 != 0") { At::OddAfter(c[0].parse().unwrap_or(-1)) }
                     else if full("$A . len ( ) % 2 == 0").is_some() { At::EvenLen }
                     else if full("$A . is_empty ( )").is_some() { At::Lt(1) }
+                    // the same tests spelled differently: `<=` / `>=`, operands swapped, negated
+                    else if let Some((_, c)) = full("$A . len ( ) <= $n") { At::Lt(c[0].parse::<i64>().unwrap_or(-2) + 1) }
+                    else if let Some((_, c)) = full("$A . len ( ) >= $n") { At::Gt(c[0].parse::<i64>().unwrap_or(0) - 1) }
+                    else if let Some((_, c)) = full("$n > $A . len ( )") { At::Lt(c[0].parse().unwrap_or(-1)) }
+                    else if let Some((_, c)) = full("$n < $A . len ( )") { At::Gt(c[0].parse().unwrap_or(-1)) }
+                    else if let Some((_, c)) = full("$n != $A . len ( )") { At::Ne(c[0].parse().unwrap_or(-1)) }
+                    else if let Some((_, c)) = full("! ( $A . len ( ) >= $n )") { At::Lt(c[0].parse().unwrap_or(-1)) }
+                    else if let Some((_, c)) = full("! ( $A . len ( ) == $n )") { At::Ne(c[0].parse().unwrap_or(-1)) }
+                    else if let Some((_, c)) = full("! ( $A . len ( ) <= $n )") { At::Gt(c[0].parse().unwrap_or(-1)) }
+                    else if let Some((_, c)) = full("! ( $A . len ( ) > $n )") { At::Lt(c[0].parse::<i64>().unwrap_or(-2) + 1) }
+                    else if let Some((_, c)) = full("( $A . len ( ) - $n ) % 2 == 1") { At::OddAfter(c[0].parse().unwrap_or(-1)) }
                     else { At::Other }
                 }).collect();
                 let rule = match parsed.as_slice() {
@@ -468,7 +480,7 @@ impl<'a> Cx<'a> {
         let mut i = from;
         while i < to {
             let hit: Option<(usize, String)> = match self.style {
-                Style::Resp => self.at(i, "Self :: $i ( & $A [").and_then(|(e, c)| if c[0].starts_with("extract_") { Some((e, kind_of_extract(&c[0]).to_string())) } else { None }),
+                Style::Resp => self.at(i, "Self :: $i ( & $A [").or_else(|| self.at(i, "Command :: $i ( & $A [")).and_then(|(e, c)| if c[0].starts_with("extract_") { Some((e, kind_of_extract(&c[0]).to_string())) } else { None }),
                 Style::Lua => self.at(i, "to_string ( & $A [").map(|(e, _)| (e, "str".to_string())).or_else(|| self.at(i, "to_sds ( & $A [").map(|(e, _)| (e, "sds".to_string()))),
             };
             if let Some((e, k)) = hit {
@@ -526,6 +538,9 @@ fn describe(cx: &Cx, name: &str, body: (usize, usize)) -> Row {
     let (arity, aerr, aidx) = cx.arity(body);
     if let Some(i) = aidx { attributed.insert(i); }
     row.insert("arity".into(), arity.clone());
+    let mut why: Vec<String> = Vec::new();
+    let snippet = |from: usize, n: usize| tk_text(&t[from..(from + n).min(e)]);
+    if arity == "?" { why.push(format!("arity: the guard on the argument count is not one of `len != n`, `len < n`, `len < a || len > b`, `len < n || (len - k) % 2 != 0`, `match len {{ … }}`, `if len == a {{ … }} else if len == b {{ … }} else {{ Err }}`: `{} …`", snippet(s, 24))); }
     row.insert("aerr".into(), aerr.as_ref().map(|x| hexs(x)).unwrap_or_else(|| "x".into()));
     let min_args: usize = {
         let digits: String = arity.chars().skip_while(|c| !c.is_ascii_digit()).take_while(|c| c.is_ascii_digit()).collect();
@@ -536,6 +551,7 @@ fn describe(cx: &Cx, name: &str, body: (usize, usize)) -> Row {
     let mut ctors: BTreeSet<String> = BTreeSet::new();
     for (_, _, c) in cx.all(s, e, "Command :: $i") {
         let n = &c[0];
+        if n.starts_with("extract_") { continue; }
         let mut cs = n.chars();
         let cap: String = match cs.next() { Some(f) => f.to_uppercase().collect::<String>() + cs.as_str(), None => String::new() };
         ctors.insert(cap);
@@ -570,7 +586,7 @@ fn describe(cx: &Cx, name: &str, body: (usize, usize)) -> Row {
                         format!("lit:{}", hexs(&c[0]))
                     } else if bs < be && is_id(&t[bs], "break") { flags_loop = true; "break".into() }
                     else if bs == be { "skip".into() }
-                    else { "?".into() };
+                    else { why.push(format!("unk: the default arm of the option match is none of `return Err(\"…\")`, `return Err(format!(\"…{{}}\", opt))`, `break`, `{{}}`: `{} …`", snippet(bs, 12))); "?".into() };
                     continue;
                 }
                 let names = arm_names(a);
@@ -590,9 +606,16 @@ fn describe(cx: &Cx, name: &str, body: (usize, usize)) -> Row {
                 let mut kinds: Vec<String> = Vec::new();
                 for (xs, xe, k, idx) in cx.extractions(bs, be) {
                     let idx_s = tk_text(&idx);
-                    if !(idx_s == "i" || idx_s.starts_with("i +")) { kinds.push("?".into()); continue; }
+                    if !(idx_s == "i" || idx_s.starts_with("i +")) { kinds.push("?".into()); why.push(format!("opts: an option value is read at index `{}` (expected `i` / `i + n`)", idx_s)); continue; }
                     let (mut kind, err, lits) = cx.modifiers(xe, &k);
                     if kind == "num" { if let Some(ty) = cx.let_type(xs) { kind = kind_of_type(&ty).into(); } }
+                    // `VAR = Some(<extraction>.parse()…)`: the type is that of the field `VAR` of the constructor(s) the arm builds
+                    if kind == "num" && xs >= 4 && is_p(&t[xs - 1], "(") && is_id(&t[xs - 2], "Some") && is_p(&t[xs - 3], "=") {
+                        if let Tk::Id(var) = &t[xs - 4] {
+                            let tys: BTreeSet<&String> = ctors.iter().filter_map(|c| cx.types.get(&(c.clone(), var.clone()))).collect();
+                            if tys.len() == 1 { kind = kind_of_type(tys.iter().next().unwrap()).into(); }
+                        }
+                    }
                     for l in lits { attributed.insert(l); }
                     kinds.push(show_slot(&kind, &err));
                 }
@@ -631,7 +654,7 @@ fn describe(cx: &Cx, name: &str, body: (usize, usize)) -> Row {
     let mut slots_ok = true;
     for (xs, xe, k, idx) in cx.extractions(s, e) {
         if in_loop(xs) { continue; }
-        if k == "?" { slots_ok = false; continue; }
+        if k == "?" { slots_ok = false; why.push(format!("slots: an extraction call that does not end `…[IDX])`: `{} …`", snippet(xs, 14))); continue; }
         if idx.len() != 1 { continue; }
         let n = match &idx[0] { Tk::Num(n) => match num(n) { Some(n) => n, None => continue }, _ => continue };
         if n < cx.first { slots_ok = false; continue; }
@@ -644,7 +667,7 @@ fn describe(cx: &Cx, name: &str, body: (usize, usize)) -> Row {
             if let Some(v) = cx.let_name(xs) { vars.insert(v, pos); }
         }
         if let Some(old) = slots.get(&pos) {
-            if old.kind != kind || old.err != err { slots_ok = false; }
+            if old.kind != kind || old.err != err { slots_ok = false; why.push(format!("slots: argument {} is extracted twice with different kinds / error texts ({} vs {})", pos, old.kind, kind)); }
         }
         slots.insert(pos, Slot { pos, kind, err, lit_idx: lits });
     }
@@ -659,6 +682,7 @@ fn describe(cx: &Cx, name: &str, body: (usize, usize)) -> Row {
     }
     let contiguous = slots.keys().enumerate().all(|(i, p)| *p == i + 1);
     if !contiguous || !slots_ok {
+        if !contiguous { why.push(format!("slots: the literal argument indices read by the arm are not 1..n without a gap: {:?}", slots.keys().collect::<Vec<_>>())); }
         row.insert("slots".into(), "?".into());
         row.insert("opt".into(), "?".into());
     } else {
@@ -695,9 +719,11 @@ fn describe(cx: &Cx, name: &str, body: (usize, usize)) -> Row {
             else { "?".into() };
     }
     if tail == "flags" { tail = "?".into(); }
+    if tail.contains('?') { why.push("tail: the arity rule admits further arguments, but none of `A[n..].iter().map(extract)`, `for i in (n..A.len()).step_by(2)`, `.chunks(2)`, `while i < A.len() { match opt … }`, `A[n..n + k]` is found in the arm".to_string()); }
     row.insert("tail".into(), tail);
     // ---- the conflict rules that follow an option scan: `if COND { return Err("text") }` over the option variables
     let mut checks: Vec<String> = Vec::new();
+    let mut checks_why: Vec<String> = Vec::new();
     if let Some(le) = loop_end {
         // `let v = [a.is_some(), …, flag].iter().filter(|&&x| x).count();`
         let mut counts: BTreeMap<String, String> = BTreeMap::new();
@@ -747,6 +773,7 @@ fn describe(cx: &Cx, name: &str, body: (usize, usize)) -> Row {
                 if let Some((_, c, ix)) = m_at_ix(t, j, "{ return Err ( $s", cx.arr) {
                     let cond = parse_cond(&t[i + 1..j], &var_kw, &counts);
                     let _ = ix;
+                    if cond.is_none() { checks_why.push(format!("checks: a condition after the option loop is not built from option variables with `&&`, `||`, `.is_some()`, `count > n`: `if {}`", tk_text(&t[i + 1..j]))); }
                     checks.push(format!("{}:{}", cond.unwrap_or_else(|| "?".to_string()), hexs(&c[0])));
                 }
             }
@@ -805,6 +832,8 @@ fn describe(cx: &Cx, name: &str, body: (usize, usize)) -> Row {
     }
     conds.sort();
     row.insert("conds".into(), conds.join(";"));
+    for c in &checks_why { why.push(c.clone()); }
+    if !why.is_empty() { row.insert("why".into(), why.join(" | ")); }
     row
 }
 
@@ -851,6 +880,196 @@ fn parse_cond(t: &[Tk], var_kw: &BTreeMap<String, String>, counts: &BTreeMap<Str
     if i == t.len() { Some(r) } else { None }
 }
 
+// ---------------------------------------------------------------------------------------------
+// normalisation: the translator reads ROLES, not the names a contributor happened to choose
+// ---------------------------------------------------------------------------------------------
+
+fn rename_in(t: &mut [Tk], from: usize, to: usize, old: &str, new: &str) {
+    if old == new { return; }
+    let hi = to.min(t.len());
+    for x in t[from..hi].iter_mut() {
+        if let Tk::Id(v) = x { if v == old { *v = new.to_string(); } }
+    }
+}
+
+/// the function `fn NAME (` … its body braces: (index of `fn`, `{`, `}`)
+fn fn_span(t: &[Tk], name: &str) -> Option<(usize, usize, usize)> {
+    let (s, e, _) = find_pat(t, 0, t.len(), &format!("fn {} (", name), "")?;
+    let close_paren = close_of(t, e - 1)?;
+    let lb = (close_paren..t.len()).find(|i| is_p(&t[*i], "{"))?;
+    let rb = close_of(t, lb)?;
+    Some((s, lb, rb))
+}
+
+/// names of the parameters of the function whose `(` is at `lp` (identifiers directly followed by `:` at depth 1)
+fn param_names(t: &[Tk], lp: usize) -> Vec<String> {
+    let rp = close_of(t, lp).unwrap_or(lp);
+    let mut v = Vec::new();
+    let mut d = 0i32;
+    for i in lp..rp {
+        match &t[i] {
+            Tk::P(x) if x == "(" || x == "[" || x == "<" => d += 1,
+            Tk::P(x) if x == ")" || x == "]" || x == ">" => d -= 1,
+            Tk::Id(n) if d == 1 && i + 1 < rp && is_p(&t[i + 1], ":") && n != "self" => v.push(n.clone()),
+            _ => {}
+        }
+    }
+    v
+}
+
+/// Renames, inside the grammar function, the identifiers that play a role the translator keys on to the names it
+/// expects — so that renaming a local (`elements` → `parts`, `cmd_name` → `name`, `i` → `idx`, `opt` → `word`,
+/// `subcommand` → `sub`, the translator's `args` / `to_string` / `to_sds`) is read like the original — and replaces an
+/// arm that only calls a private helper (`"SET" => Self::parse_set(elements)`) by the helper's body.
+/// What was renamed / inlined is listed in `notes` (evidence).
+fn normalise(t: &mut Vec<Tk>, fn_name: &str, style: Style, notes: &mut Vec<String>) {
+    let (fs, mut lb, mut rb) = match fn_span(t, fn_name) { Some(x) => x, None => return };
+    // (1) the dispatch variable: the first `match X.as_str() {` whose arms are string literals
+    if let Some((ms, _, c)) = find_pat(t, lb, rb, "match $i . as_str ( ) {", "") {
+        let _ = ms;
+        if c[0] != "cmd_name" { notes.push(format!("{}: dispatch variable `{}` read as `cmd_name`", fn_name, c[0])); rename_in(t, lb, rb, &c[0], "cmd_name"); }
+    }
+    // (2) the argument array
+    match style {
+        Style::Resp => {
+            // `Array(Some(X)) if !X.is_empty() =>` of the outer match
+            if let Some((_, _, c)) = find_pat(t, lb, rb, "Array ( Some ( $i ) )", "") {
+                if c[0] != "elements" { notes.push(format!("{}: argument array `{}` read as `elements`", fn_name, c[0])); rename_in(t, lb, rb, &c[0], "elements"); }
+            }
+        }
+        Style::Lua => {
+            // `let ARGS = &PARTS[1..];` and the two conversion closures
+            if let Some((_, _, c)) = find_pat(t, lb, rb, "let $i = & $i [ 1 .. ] ;", "") {
+                if c[0] != "args" { notes.push(format!("{}: argument slice `{}` read as `args`", fn_name, c[0])); rename_in(t, lb, rb, &c[0], "args"); }
+            }
+            for (pat, canon) in [("let $i = | $i : & [ u8 ] | String :: from_utf8_lossy ( $i ) . to_string ( ) ;", "to_string"),
+                                 ("let $i = | $i : & [ u8 ] | SDS :: new ( $i . to_vec ( ) ) ;", "to_sds")] {
+                if let Some((_, _, c)) = find_pat(t, lb, rb, pat, "") {
+                    if c[0] != canon { notes.push(format!("{}: closure `{}` read as `{}`", fn_name, c[0], canon)); rename_in(t, lb, rb, &c[0], canon); }
+                }
+            }
+        }
+    }
+    let arr = if style == Style::Resp { "elements" } else { "args" };
+    // (3) an arm that only calls a private helper with the argument array: the helper's body takes its place
+    let mpos = match find_pat(t, lb, rb, "match cmd_name . as_str ( ) {", "") { Some((_, e, _)) => e - 1, None => return };
+    let mut guard = 0;
+    loop {
+        guard += 1;
+        if guard > 64 { break; }
+        let arms = parse_arms(t, mpos);
+        let mut done = true;
+        for a in &arms {
+            let (bs, be) = a.body;
+            // `[return] [Self::|self.]HELPER([&]ARR[, …literal args])[?][;]` and nothing else
+            let mut i = bs;
+            if i < be && is_id(&t[i], "return") { i += 1; }
+            if i + 1 < be && (is_id(&t[i], "Self") && is_p(&t[i + 1], "::")) { i += 2; }
+            else if i + 1 < be && (is_id(&t[i], "self") && is_p(&t[i + 1], ".")) { i += 2; }
+            let helper = match t.get(i) { Some(Tk::Id(h)) if i + 1 < be && is_p(&t[i + 1], "(") => h.clone(), _ => continue };
+            if helper.starts_with("extract_") || helper == "Ok" || helper == "Err" { continue; }
+            let cp = match close_of(t, i + 1) { Some(x) => x, None => continue };
+            let mut j = cp + 1;
+            while j < be && (is_p(&t[j], "?") || is_p(&t[j], ";")) { j += 1; }
+            if j != be { continue; }
+            // the call's arguments: exactly the array (by reference or not)
+            let call_args: Vec<Tk> = t[i + 2..cp].iter().filter(|x| !is_p(x, "&")).cloned().collect();
+            if !(call_args.len() == 1 && is_id(&call_args[0], arr)) { continue; }
+            let (hs, hlb, hrb) = match fn_span(t, &helper) { Some(x) => x, None => continue };
+            let ps = param_names(t, hs + 2);
+            if ps.len() != 1 { continue; }
+            let mut body: Vec<Tk> = t[hlb + 1..hrb].to_vec();
+            let n = body.len();
+            rename_in(&mut body, 0, n, &ps[0], arr);
+            notes.push(format!("{}: arm {:?} calls the private helper `{}`: its body is read in place", fn_name, arm_names(a), helper));
+            // splice: replace the arm's body tokens by `{ body }` (an expression arm may lack braces)
+            let mut repl: Vec<Tk> = vec![Tk::P("{".into())];
+            repl.extend(body);
+            repl.push(Tk::P("}".into()));
+            let braced = bs > 0 && is_p(&t[bs - 1], "{");
+            if braced { t.splice(bs..be, repl[1..repl.len() - 1].iter().cloned()); } else { t.splice(bs..be, repl); }
+            done = false;
+            break;
+        }
+        if done { break; }
+        // spans moved
+        match fn_span(t, fn_name) { Some((_, l, r)) => { lb = l; rb = r; } None => return }
+    }
+    let _ = fs;
+    // (4) per arm: the loop index, the option word, the sub-command word
+    let (_, lb, rb) = match fn_span(t, fn_name) { Some(x) => x, None => return };
+    let mpos = match find_pat(t, lb, rb, "match cmd_name . as_str ( ) {", "") { Some((_, e, _)) => e - 1, None => return };
+    let arms = parse_arms(t, mpos);
+    for a in &arms {
+        let (bs, be) = a.body;
+        // loop index: `while X < ARR.len() {`
+        let loops: Vec<String> = find_all(t, bs, be, "while $i < $A . len ( ) {", arr).into_iter().map(|(_, _, c)| c[0].clone()).collect();
+        for v in loops.iter().collect::<BTreeSet<_>>() {
+            if v.as_str() != "i" { notes.push(format!("{}: arm {:?}: loop index `{}` read as `i`", fn_name, arm_names(a), v)); rename_in(t, bs, be, v, "i"); }
+        }
+        let fors: Vec<String> = find_all(t, bs, be, "for $i in ( $n .. $A . len ( ) ) . step_by ( 2 ) {", arr).into_iter().map(|(_, _, c)| c[0].clone()).collect();
+        for v in fors.iter().collect::<BTreeSet<_>>() {
+            if v.as_str() != "i" { notes.push(format!("{}: arm {:?}: loop index `{}` read as `i`", fn_name, arm_names(a), v)); rename_in(t, bs, be, v, "i"); }
+        }
+        // `match X.as_str() {` inside a `while` = the option word; at the top of the arm = the sub-command word
+        let whiles: Vec<(usize, usize)> = find_all(t, bs, be, "while i < $A . len ( ) {", arr).into_iter().filter_map(|(_, e, _)| close_of(t, e - 1).map(|c| (e - 1, c))).collect();
+        let ms: Vec<(usize, String)> = find_all(t, bs, be, "match $i . as_str ( ) {", arr).into_iter().map(|(s, _, c)| (s, c[0].clone())).collect();
+        for (pos, v) in ms {
+            let in_loop = whiles.iter().any(|(a, b)| pos > *a && pos < *b);
+            let canon = if in_loop { "opt" } else { "subcommand" };
+            if v != canon && v != "cmd_name" {
+                // only a word variable: defined by `let V = …to_uppercase();`
+                if find_pat(t, bs, pos, &format!("let {} =", v), arr).is_some() {
+                    notes.push(format!("{}: arm {:?}: word variable `{}` read as `{}`", fn_name, arm_names(a), v, canon));
+                    rename_in(t, bs, be, &v, canon);
+                }
+            }
+        }
+    }
+}
+
+/// the numeric type of every named field of every struct-like `Command` variant (`Set { ex: Option<i64>, … }` →
+/// ("Set", "ex") → "i64"), from command.rs: resolves a `.parse()` whose target type the arm does not spell out
+pub type FieldTypes = BTreeMap<(String, String), String>;
+
+pub fn field_types(command_rs: &str) -> FieldTypes {
+    let t = lex(command_rs);
+    let mut m = FieldTypes::new();
+    let lb = match find_pat(&t, 0, t.len(), "enum Command {", "") { Some((_, e, _)) => e - 1, None => return m };
+    let rb = close_of(&t, lb).unwrap_or(t.len());
+    let mut i = lb + 1;
+    while i < rb {
+        if let (Tk::Id(v), true) = (&t[i], i + 1 < rb && is_p(&t[i + 1], "{")) {
+            let c = close_of(&t, i + 1).unwrap_or(rb);
+            let mut j = i + 2;
+            while j < c {
+                if let (Tk::Id(f), true) = (&t[j], j + 1 < c && is_p(&t[j + 1], ":")) {
+                    // the type runs to the `,` at angle depth 0
+                    let mut k = j + 2;
+                    let mut d = 0i32;
+                    let mut ty: Option<String> = None;
+                    while k < c {
+                        match &t[k] {
+                            Tk::P(x) if x == "<" || x == "(" => d += 1,
+                            Tk::P(x) if x == ">" || x == ")" => d -= 1,
+                            Tk::P(x) if x == "," && d == 0 => break,
+                            Tk::Id(x) if matches!(x.as_str(), "i64" | "isize" | "u64" | "usize" | "u32" | "f64") => ty = Some(x.clone()),
+                            _ => {}
+                        }
+                        k += 1;
+                    }
+                    if let Some(ty) = ty { m.insert((v.clone(), f.clone()), ty); }
+                    j = k + 1;
+                } else { j += 1; }
+            }
+            i = c + 1;
+        } else if is_p(&t[i], "(") || is_p(&t[i], "{") || is_p(&t[i], "[") {
+            i = close_of(&t, i).unwrap_or(rb) + 1;
+        } else { i += 1; }
+    }
+    m
+}
+
 pub struct Extracted {
     /// the extract helpers: name, parsed type, text of a parse failure, every literal
     pub helpers: Vec<Row>,
@@ -860,11 +1079,13 @@ pub struct Extracted {
     /// family name -> (text of a missing sub-command, what an unknown sub-command ZZZ answers)
     pub families: Vec<Row>,
     pub problems: Vec<String>,
+    /// renamed locals / inlined helpers the normalisation pass read through
+    pub notes: Vec<String>,
 }
 
 /// the shape rows of one grammar, from its source text
-pub fn extract(src: &str, fn_name: &str, style: Style) -> Extracted {
-    let mut out = Extracted { helpers: vec![], default_arm: "?".into(), rows: vec![], families: vec![], problems: vec![] };
+pub fn extract(src: &str, fn_name: &str, style: Style, types: &FieldTypes) -> Extracted {
+    let mut out = Extracted { helpers: vec![], default_arm: "?".into(), rows: vec![], families: vec![], problems: vec![], notes: vec![] };
     let mut toks = lex(src);
     // the zero-copy twin uses the same helpers under `_zc` names
     for t in toks.iter_mut() {
@@ -872,6 +1093,7 @@ pub fn extract(src: &str, fn_name: &str, style: Style) -> Extracted {
             if let Some(st) = s.strip_suffix("_zc") { *s = st.to_string(); }
         }
     }
+    normalise(&mut toks, fn_name, style, &mut out.notes);
     let t = &toks[..];
     let fpos = match find_pat(t, 0, t.len(), &format!("fn {} (", fn_name), "") { Some((s, _, _)) => s, None => { out.problems.push(format!("fn {} not found", fn_name)); return out; } };
     let arr: &'static str = if style == Style::Resp { "elements" } else { "args" };
@@ -928,12 +1150,12 @@ pub fn extract(src: &str, fn_name: &str, style: Style) -> Extracted {
             }
         }
         if let Some(lb) = fam_match {
-            let cx_top = Cx { t, arr, style, first: 1 };
+            let cx_top = Cx { types, t, arr, style, first: 1 };
             let (_, aerr, _) = cx_top.arity((bs, lb));
             let sub_arms = parse_arms(t, lb);
             let dflt = sub_arms.iter().find(|x| arm_is_default(x));
             let dflt_text = dflt.map(|d| tk_text(&t[d.body.0..d.body.1]));
-            let cx = Cx { t, arr, style, first: 2 };
+            let cx = Cx { types, t, arr, style, first: 2 };
             for name in &names {
                 let mut fr: Row = BTreeMap::new();
                 fr.insert("name".into(), name.clone());
@@ -950,6 +1172,9 @@ pub fn extract(src: &str, fn_name: &str, style: Style) -> Extracted {
                     }
                 };
                 fr.insert("probe".into(), probe);
+                // every sub-command word of the family, also those whose arm does what the default arm does
+                let subwords: BTreeSet<String> = sub_arms.iter().filter(|x| !arm_is_default(x)).flat_map(|x| arm_names(x)).collect();
+                fr.insert("subwords".into(), subwords.into_iter().collect::<Vec<_>>().join(","));
                 out.families.push(fr);
                 for sa in &sub_arms {
                     if arm_is_default(sa) { continue; }
@@ -961,7 +1186,7 @@ pub fn extract(src: &str, fn_name: &str, style: Style) -> Extracted {
                 }
             }
         } else {
-            let cx = Cx { t, arr, style, first: if style == Style::Resp { 1 } else { 0 } };
+            let cx = Cx { types, t, arr, style, first: if style == Style::Resp { 1 } else { 0 } };
             for name in &names {
                 out.rows.push(describe(&cx, name, a.body));
             }
@@ -1003,4 +1228,344 @@ pub fn field_eq(field: &str, src: &str, model: &str) -> bool {
         }
         false
     })
+}
+
+// ---------------------------------------------------------------------------------------------
+// the regenerated tables as a Lean file (`Grammar.SRow` values + the theorems that tie them to the model)
+// ---------------------------------------------------------------------------------------------
+
+fn unhex_bytes(h: &str) -> Option<Vec<u8>> {
+    let h = h.strip_prefix('x')?;
+    if h.len() % 2 != 0 { return None; }
+    (0..h.len()).step_by(2).map(|i| u8::from_str_radix(h.get(i..i + 2)?, 16).ok()).collect()
+}
+
+/// a byte string as a Lean term of type `Bytes`
+fn lean_bytes_raw(b: &[u8]) -> String {
+    // numerals, not a string literal: `String.toList` on a literal costs the kernel milliseconds per character
+    format!("[{}]", b.iter().map(|c| c.to_string()).collect::<Vec<_>>().join(", "))
+}
+fn lean_hex(h: &str) -> Option<String> { unhex_bytes(h).map(|b| lean_bytes_raw(&b)) }
+fn lean_word(w: &str) -> String { lean_bytes_raw(w.as_bytes()) }
+
+fn lean_arity(a: &str) -> Option<String> {
+    let n = |s: &str| s.parse::<u64>().ok();
+    if a == "any" { return Some(".any".into()); }
+    if let Some(r) = a.strip_prefix("even-ge") { return n(r).map(|k| format!(".evenAtLeast {}", k)); }
+    if let Some(r) = a.strip_prefix("odd-ge") { return n(r).map(|k| format!(".oddAtLeast {}", k)); }
+    if let Some(r) = a.strip_prefix("eq") { return n(r).map(|k| format!(".exact {}", k)); }
+    if let Some(r) = a.strip_prefix("ge") { return n(r).map(|k| format!(".atLeast {}", k)); }
+    if let Some(r) = a.strip_prefix("in") { let (lo, hi) = r.split_once('-')?; return Some(format!(".between {} {}", n(lo)?, n(hi)?)); }
+    None
+}
+
+fn lean_arg(a: &str) -> Option<String> {
+    let (k, err) = match a.split_once('!') { Some((k, e)) => (k, Some(e)), None => (a, None) };
+    let kind = match k {
+        "str" | "sds" | "int" | "u64" | "flt" | "usz" | "kw" | "u32" => format!(".k .{}", k),
+        "num" => ".num".to_string(),
+        _ => return None,
+    };
+    let e = match err { Some(h) => format!("some {}", lean_hex(h)?), None => "none".to_string() };
+    Some(format!("⟨{}, {}⟩", kind, e))
+}
+
+fn lean_args(s: &str) -> Option<String> {
+    if s == "-" { return Some("[]".into()); }
+    let v: Option<Vec<String>> = s.split(',').map(lean_arg).collect();
+    Some(format!("[{}]", v?.join(", ")))
+}
+
+fn lean_tail(s: &str) -> Option<String> {
+    match s {
+        "none" => return Some(".none".into()),
+        "ignore" => return Some(".ignore".into()),
+        "raw" => return Some(".raw".into()),
+        "scan" => return Some(".scan".into()),
+        _ => {}
+    }
+    let p: Vec<&str> = s.split(':').collect();
+    match p.as_slice() {
+        ["many", a] => Some(format!(".many {}", lean_arg(a)?)),
+        ["pairs", a, b] => Some(format!(".pairs {} {}", lean_arg(a)?, lean_arg(b)?)),
+        ["flags", a, b, odd] => Some(format!(".flags {} {} {}", lean_arg(a)?, lean_arg(b)?, lean_hex(odd)?)),
+        _ => None,
+    }
+}
+
+fn lean_opts(s: &str) -> Option<String> {
+    if s == "-" { return Some("[]".into()); }
+    let mut out = Vec::new();
+    for o in s.split('|') {
+        let p: Vec<&str> = o.split(':').collect();
+        if p.len() < 3 { return None; }
+        let vals = lean_args(p[1])?;
+        let m = match p[2].strip_prefix("m=")? {
+            "-" => ".na".to_string(),
+            "crash" => ".crash".to_string(),
+            "ignore" => ".ignore".to_string(),
+            h => format!(".text {}", lean_hex(h)?),
+        };
+        let r = match p.get(3) { Some(r) => format!("some {}", lean_hex(r.strip_prefix("r=")?)?), None => "none".to_string() };
+        if p.len() > 4 { return None; }
+        out.push(format!("⟨{}, {}, {}, {}⟩", lean_word(p[0]), vals, m, r));
+    }
+    Some(format!("[{}]", out.join(", ")))
+}
+
+fn lean_unk(s: &str) -> Option<String> {
+    match s {
+        "-" => Some(".na".into()),
+        "break" => Some(".brk".into()),
+        "skip" => Some(".skip".into()),
+        _ => {
+            if let Some(h) = s.strip_prefix("lit:") { Some(format!(".lit {}", lean_hex(h)?)) }
+            else if let Some(h) = s.strip_prefix("fmt:") { Some(format!(".fmt {}", lean_hex(h)?)) }
+            else { None }
+        }
+    }
+}
+
+fn lean_hexlist(s: &str, sep: char) -> Option<String> {
+    if s == "-" || s.is_empty() { return Some("[]".into()); }
+    let v: Option<Vec<String>> = s.split(sep).map(lean_hex).collect();
+    Some(format!("[{}]", v?.join(", ")))
+}
+
+/// `KW` | `(A&&B)` | `(A||B)` | `count(A,B,…)>n`
+fn lean_cond(s: &str) -> Option<String> {
+    fn go(b: &[u8], i: &mut usize) -> Option<String> {
+        if b.get(*i) == Some(&b'(') {
+            *i += 1;
+            let l = go(b, i)?;
+            let op = b.get(*i..*i + 2)?;
+            let c = if op == b"&&" { ".and" } else if op == b"||" { ".or" } else { return None };
+            *i += 2;
+            let r = go(b, i)?;
+            if b.get(*i) != Some(&b')') { return None; }
+            *i += 1;
+            return Some(format!("({} {} {})", c, l, r));
+        }
+        if b[*i..].starts_with(b"count(") {
+            *i += 6;
+            let st = *i;
+            while *i < b.len() && b[*i] != b')' { *i += 1; }
+            let ws: Vec<String> = std::str::from_utf8(&b[st..*i]).ok()?.split(',').map(lean_word).collect();
+            *i += 1;
+            if b.get(*i) != Some(&b'>') { return None; }
+            *i += 1;
+            let ns = *i;
+            while *i < b.len() && b[*i].is_ascii_digit() { *i += 1; }
+            let n: u64 = std::str::from_utf8(&b[ns..*i]).ok()?.parse().ok()?;
+            return Some(format!("(.countGt [{}] {})", ws.join(", "), n));
+        }
+        let st = *i;
+        while *i < b.len() && (b[*i].is_ascii_alphanumeric() || b[*i] == b'-' || b[*i] == b'_') { *i += 1; }
+        if *i == st { return None; }
+        Some(format!("(.kw {})", lean_word(std::str::from_utf8(&b[st..*i]).ok()?)))
+    }
+    let b = s.as_bytes();
+    let mut i = 0;
+    let r = go(b, &mut i)?;
+    if i == b.len() { Some(r) } else { None }
+}
+
+fn lean_checks(s: &str) -> Option<String> {
+    if s == "-" { return Some("[]".into()); }
+    // rules are separated by a single `|` at parenthesis depth 0
+    let mut parts: Vec<String> = Vec::new();
+    let mut cur = String::new();
+    let mut d = 0i32;
+    for c in s.chars() {
+        match c {
+            '(' => { d += 1; cur.push(c); }
+            ')' => { d -= 1; cur.push(c); }
+            '|' if d == 0 => { parts.push(std::mem::take(&mut cur)); }
+            _ => cur.push(c),
+        }
+    }
+    parts.push(cur);
+    let mut out = Vec::new();
+    for p in parts {
+        let (c, t) = p.rsplit_once(':')?;
+        out.push(format!("({}, {})", lean_cond(c)?, lean_hex(t)?));
+    }
+    Some(format!("[{}]", out.join(", ")))
+}
+
+/// one `SRow` term; `Err(field)` names the first field the translator could not read (`?`) or this printer does
+/// not understand
+pub fn lean_row(r: &Row) -> Result<String, String> {
+    let g = |k: &str| r.get(k).cloned().unwrap_or_default();
+    let f = |k: &str, v: Option<String>| v.ok_or_else(|| format!("{}={}", k, g(k)));
+    let ctors = { let c = g("ctor"); if c.is_empty() { "[]".to_string() } else { format!("[{}]", c.split('|').map(lean_word).collect::<Vec<_>>().join(", ")) } };
+    Ok(format!("⟨{}, {}, {}, {}, {}, {}, {}, {}, {}, {}, {}⟩",
+        lean_word(&g("name")), f("arity", lean_arity(&g("arity")))?, f("aerr", lean_hex(&g("aerr")))?, ctors,
+        f("slots", lean_args(&g("slots")))?, f("opt", lean_args(&g("opt")))?, f("tail", lean_tail(&g("tail")))?,
+        f("opts", lean_opts(&g("opts")))?, f("unk", lean_unk(&g("unk")))?, f("flits", lean_hexlist(&g("flits"), ';'))?,
+        f("checks", lean_checks(&g("checks")))?))
+}
+
+/// `OK_Ctor_sx…_sx…` / `ERR_x…` as a Lean term of type `Except Bytes (Bytes × List Bytes)`
+fn lean_probe(p: &str) -> Option<String> {
+    if let Some(h) = p.strip_prefix("ERR_") { return Some(format!("(.error {})", lean_hex(h)?)); }
+    let rest = p.strip_prefix("OK_")?;
+    let mut it = rest.split('_');
+    let ctor = it.next()?;
+    let toks: Option<Vec<String>> = it.map(|t| lean_hex(t.strip_prefix('s')?)).collect();
+    Some(format!("(.ok ({}, [{}]))", lean_word(ctor), toks?.join(", ")))
+}
+
+/// the Lean file with the three regenerated tables and the theorems about them; also what could not be emitted
+/// `order_*`: the names of the model's rows / families in the model's order — every source row is looked up BY
+/// NAME and written at the model's position (the order of the match arms in the source does not matter); arms the
+/// model has no row for follow at the end (and make the tables differ)
+pub fn lean_file(repo: &str, sim: &Extracted, zc: &Extracted, lua: &Extracted, order_resp: &[String], order_lua: &[String], order_fam: &[String]) -> (String, Vec<String>) {
+    let mut unread: Vec<String> = Vec::new();
+    let pos = |order: &[String], n: &str| order.iter().position(|x| x == n).unwrap_or(usize::MAX);
+    let mut rows = |tag: &str, ex: &Extracted, order: &[String]| -> (String, usize) {
+        let mut v: Vec<&Row> = ex.rows.iter().collect();
+        v.sort_by_key(|r| { let n = r.get("name").cloned().unwrap_or_default(); (pos(order, &n), n) });
+        let mut out = Vec::new();
+        for r in v {
+            match lean_row(r) {
+                Ok(s) => out.push(format!("  {}", s)),
+                Err(e) => unread.push(format!("{}:{}:{}", tag, r.get("name").cloned().unwrap_or_default(), e)),
+            }
+        }
+        (format!("[\n{}\n]", out.join(",\n")), out.len())
+    };
+    let (resp_rows, n_resp) = rows("from_resp", sim, order_resp);
+    let (mut zc_rows, n_zc) = rows("from_resp_zero_copy", zc, order_resp);
+    let (lua_rows, n_lua) = rows("parse_lua_command_bytes", lua, order_lua);
+    // identical text = the same table: say so instead of repeating it (the equality theorem is then `rfl`)
+    if zc_rows == resp_rows { zc_rows = "respRows".to_string(); }
+    let mut fams = |tag: &str, ex: &Extracted| -> String {
+        let mut v: Vec<&Row> = ex.families.iter().collect();
+        v.sort_by_key(|r| { let n = r.get("name").cloned().unwrap_or_default(); (pos(order_fam, &n), n) });
+        let mut out = Vec::new();
+        for r in v {
+            let g = |k: &str| r.get(k).cloned().unwrap_or_default();
+            match (lean_hex(&g("aerr")), lean_probe(&g("probe"))) {
+                (Some(a), Some(p)) => out.push(format!("  ⟨{}, {}, {}⟩", lean_word(&g("name")), a, p)),
+                _ => unread.push(format!("{}:family:{}", tag, g("name"))),
+            }
+        }
+        format!("[\n{}\n]", out.join(",\n"))
+    };
+    let resp_fams = fams("from_resp", sim);
+    let mut zc_fams = fams("from_resp_zero_copy", zc);
+    if zc_fams == resp_fams { zc_fams = "respFamilies".to_string(); }
+    let mut dflt = |tag: &str, ex: &Extracted| -> String {
+        match lean_probe(&ex.default_arm) { Some(p) => p, None => { unread.push(format!("{}:default-arm", tag)); "(.error [])".to_string() } }
+    };
+    let (d_resp, d_zc, d_lua) = (dflt("from_resp", sim), dflt("from_resp_zero_copy", zc), dflt("parse_lua_command_bytes", lua));
+    let text = format!(r#"import RedisVerif.Props.C16Src
+
+/-!
+GENERATED on this run of `./check C16` by the source → shape-descriptor translator (harness/src/c16_shape.rs) from
+  {repo}/src/redis/parser.rs (Command::from_resp), {repo}/src/redis/commands.rs (Command::from_resp_zero_copy),
+  {repo}/src/redis/executor/script_ops.rs (parse_lua_command_bytes).
+Do not edit.  The hand-written tables (`Grammar.table`, `Grammar.luaTable`) are the cross-check.
+-/
+set_option maxRecDepth 100000
+namespace RedisVerif.C16.SrcGen
+open RedisVerif.Grammar RedisVerif.C16
+
+def respRows : List SRow := {resp_rows}
+
+def zcRows : List SRow := {zc_rows}
+
+def luaRows : List SRow := {lua_rows}
+
+def respFamilies : List SFamily := {resp_fams}
+
+def zcFamilies : List SFamily := {zc_fams}
+
+def respDefault : Except Bytes (Bytes × List Bytes) := {d_resp}
+def zcDefault : Except Bytes (Bytes × List Bytes) := {d_zc}
+def luaDefault : Except Bytes (Bytes × List Bytes) := {d_lua}
+
+/-! ### the regenerated tables against each other and against the normal form of the hand-written model
+  (`Model/GrammarShapesNF.lean`, proved at build time to describe `table` / `luaTable`: `respRowsNF_describes` …) -/
+
+theorem zc_rows_eq_resp_rows : zcRows = respRows := by decide +kernel
+theorem zc_families_eq_resp_families : zcFamilies = respFamilies := by decide +kernel
+theorem resp_rows_eq_model_nf : respRows = respRowsNF := by decide +kernel
+theorem lua_rows_eq_model_nf : luaRows = luaRowsNF := by decide +kernel
+theorem resp_families_eq_model_nf : respFamilies = familiesNF := by decide +kernel
+theorem default_arms_eq_model_nf : respDefault = respDefaultNF ∧ zcDefault = respDefault ∧ luaDefault = luaDefaultNF := by
+  decide +kernel
+
+theorem resp_rows_describe_model : rowsDescribe respRows (shapeRows table) = true :=
+  resp_rows_eq_model_nf ▸ respRowsNF_describes
+theorem lua_rows_describe_model : rowsDescribe luaRows (shapeRows luaTable) = true :=
+  lua_rows_eq_model_nf ▸ luaRowsNF_describes
+theorem resp_families_describe_model : familiesDescribe respFamilies table = true :=
+  resp_families_eq_model_nf ▸ familiesNF_describe
+theorem default_arms_describe_model :
+    respDefault = probeOf (parseCmd [s2b "ZZZ"]) ∧ zcDefault = respDefault ∧ luaDefault = probeOf (parseLua [s2b "ZZZ"]) :=
+  ⟨default_arms_eq_model_nf.1.trans defaultsNF_describe.1, default_arms_eq_model_nf.2.1,
+   default_arms_eq_model_nf.2.2.trans defaultsNF_describe.2⟩
+
+/-! ### what the regenerated tables mean for every frame (`Props/C16Src.lean` instantiated on THIS run's tables) -/
+
+theorem parsers_agree_regenerated :
+    rowsDescribe zcRows (shapeRows table) = true ∧ ∀ f : List Bytes, parseCmdZc f = parseCmd f :=
+  parsers_agree_src zc_rows_eq_resp_rows resp_rows_describe_model
+
+theorem from_resp_governed_by_regenerated_rows (name : Bytes) (args : List Bytes) (s : Spec)
+    (hf : findEntry table (kw name) = some (.cmd s)) :
+    ∃ r ∈ respRows, Described r (s.row []) ∧ r.name = kw name ∧
+      parseCmd (name :: args) =
+        if r.arity.ok args.length then liftB (runGen s.body.gen args) else .error (.arity r.aerr) :=
+  resp_governed resp_rows_describe_model name args s hf
+
+theorem from_resp_sub_governed_by_regenerated_rows (name sub : Bytes) (args : List Bytes) (fam aerr : Bytes)
+    (subs : List Spec) (dflt : Bytes → List Bytes → Res) (s : Spec)
+    (hf : findEntry table (kw name) = some (.family fam aerr subs dflt)) (hs : findSpec subs (kw sub) = some s) :
+    ∃ r ∈ respRows, Described r (s.row (fam ++ [46])) ∧ r.name = fam ++ 46 :: s.name ∧
+      parseCmd (name :: sub :: args) =
+        if r.arity.ok args.length then liftB (runGen s.body.gen args) else .error (.arity r.aerr) :=
+  resp_governed_sub resp_rows_describe_model name sub args fam aerr subs dflt s hf hs
+
+theorem translator_governed_by_regenerated_rows (name : Bytes) (args : List Bytes) (s : Spec)
+    (hf : findEntry luaTable (kw name) = some (.cmd s)) :
+    ∃ r ∈ luaRows, Described r (s.row []) ∧ r.name = kw name ∧
+      parseLua (name :: args) =
+        if r.arity.ok args.length then liftB (runGen s.body.gen args) else .error (.arity r.aerr) :=
+  lua_governed lua_rows_describe_model name args s hf
+
+theorem arity_exact_regenerated (name : Bytes) (args : List Bytes) (s : Spec)
+    (hf : findEntry table (kw name) = some (.cmd s)) :
+    ∃ r ∈ respRows, r.name = kw name ∧
+      (errText (parseCmd (name :: args)) = some r.aerr ↔ r.arity.ok args.length = false) :=
+  src_arity_exact resp_rows_describe_model name args s hf
+
+theorem alphabet_regenerated (name : Bytes) (args : List Bytes) (s : Spec)
+    (hf : findEntry table (kw name) = some (.cmd s)) :
+    ∃ r ∈ respRows, r.name = kw name ∧ SrcAllows r (parseCmd (name :: args)) :=
+  src_alphabet resp_rows_describe_model name args s hf
+
+theorem alphabet_lua_regenerated (name : Bytes) (args : List Bytes) (s : Spec)
+    (hf : findEntry luaTable (kw name) = some (.cmd s)) :
+    ∃ r ∈ luaRows, r.name = kw name ∧ SrcAllows r (parseLua (name :: args)) :=
+  src_alphabet_lua lua_rows_describe_model name args s hf
+
+theorem lua_agrees_regenerated (name : Bytes) (args : List Bytes) (c : Cmd)
+    (sl : Spec) (hfl : findEntry luaTable (kw name) = some (.cmd sl))
+    (s : Spec) (hf : findEntry table (kw name) = some (.cmd s)) (hacc : parseLua (name :: args) = .ok c) :
+    parseCmd (name :: args) = .ok c ∧ (∃ r ∈ luaRows, r.name = kw name) ∧ (∃ r ∈ respRows, r.name = kw name) :=
+  lua_agrees_src resp_rows_describe_model lua_rows_describe_model name args c sl hfl s hf hacc
+
+/-- non-vacuity: the regenerated tables are not empty and know SET in all three grammars -/
+theorem regenerated_tables_nonempty :
+    respRows.length = {n_resp} ∧ zcRows.length = {n_zc} ∧ luaRows.length = {n_lua} ∧
+    (respRows.any (·.name == [83, 69, 84]) && luaRows.any (·.name == [83, 69, 84])) = true := by decide +kernel
+
+end RedisVerif.C16.SrcGen
+"#, repo = repo, resp_rows = resp_rows, zc_rows = zc_rows, lua_rows = lua_rows, resp_fams = resp_fams, zc_fams = zc_fams,
+        d_resp = d_resp, d_zc = d_zc, d_lua = d_lua,
+        n_resp = n_resp, n_zc = n_zc, n_lua = n_lua);
+    (text, unread)
 }
